@@ -3,6 +3,8 @@ package props
 import (
 	"fmt"
 	"strings"
+	"sync"
+	"sync/atomic"
 	"testing"
 	"time"
 
@@ -18,6 +20,8 @@ import (
 type c19Case struct {
 	Data    *kit.Dataset    `json:"data"`
 	Queries []kit.QuerySpec `json:"queries"`
+	// Overlap: the queries are run once more from four goroutines at the same time on the one store instance
+	Overlap bool `json:"overlap,omitempty"`
 }
 
 type sliceIter struct {
@@ -101,7 +105,7 @@ func genC19(t *rapid.T) c19Case {
 	if rapid.IntRange(0, 1).Draw(t, "lowcard") > 0 {
 		lowCardinality(t, d)
 	}
-	c := c19Case{Data: d}
+	c := c19Case{Data: d, Overlap: rapid.IntRange(0, 7).Draw(t, "overlap") == 0}
 	nq := rapid.IntRange(3, 8).Draw(t, "nQueries")
 	for i := 0; i < nq; i++ {
 		l := fmt.Sprintf("q%d", i)
@@ -163,6 +167,12 @@ func runC19(c c19Case) kit.Result {
 		order = append(order, i)
 	}
 	ostore := newObjectStore(&d, order)
+	type answer struct {
+		ids   string
+		count int64
+		err   bool
+	}
+	serial := make([]answer, len(c.Queries))
 	err := db.DB.View(func(tx *bbolt.Tx) error {
 		for qi := range c.Queries {
 			q := &c.Queries[qi]
@@ -173,6 +183,7 @@ func runC19(c c19Case) kit.Result {
 			for _, o := range objs {
 				oIds = append(oIds, o.ID)
 			}
+			serial[qi] = answer{fmt.Sprint(oIds), oCount, oErr != nil}
 			if (bErr == nil) != (oErr == nil) {
 				return fmt.Errorf("query: %s\n  bolt store error: %v\n  object store error: %v", text, bErr, oErr)
 			}
@@ -212,6 +223,45 @@ func runC19(c c19Case) kit.Result {
 		return nil
 	})
 	res.Err = err
+	if err != nil || len(c.Queries) < 2 || !c.Overlap {
+		return res
+	}
+	// the same queries once more, this time overlapping in time on the one store instance (an in-memory store is
+	// queried by concurrent requests): every query still gets its own answer
+	var wg sync.WaitGroup
+	var firstErr atomic.Value
+	for g := 0; g < 4; g++ {
+		wg.Add(1)
+		go func(g int) {
+			defer wg.Done()
+			defer func() {
+				if p := recover(); p != nil {
+					firstErr.CompareAndSwap(nil, fmt.Errorf("concurrent query panicked: %v", p))
+				}
+			}()
+			for round := 0; round < 6; round++ {
+				for k := range c.Queries {
+					qi := (k + g*3 + round) % len(c.Queries)
+					text := c.Queries[qi].Render()
+					objs, count, qerr := ostore.QueryEntities(text)
+					var ids []string
+					for _, o := range objs {
+						ids = append(ids, o.ID)
+					}
+					got := answer{fmt.Sprint(ids), count, qerr != nil}
+					if got != serial[qi] && !(got.err && serial[qi].err) {
+						firstErr.CompareAndSwap(nil, fmt.Errorf("query: %s\n  alone on the store    -> %s count %d (error: %v)\n  beside other queries  -> %s count %d (error: %v)", text, serial[qi].ids, serial[qi].count, serial[qi].err, got.ids, got.count, got.err))
+						return
+					}
+				}
+			}
+		}(g)
+	}
+	wg.Wait()
+	if e := firstErr.Load(); e != nil {
+		res.Err = e.(error)
+	}
+	res.Classes = append(res.Classes, "queries-overlapping-in-time")
 	return res
 }
 
